@@ -287,6 +287,78 @@ func extractScript(repo, out string) ([]string, error) {
 	if len(cmpSites) != 6 {
 		return nil, fmt.Errorf("script extractor: expected the six comparison clauses in evalStack, found %d", len(cmpSites))
 	}
+	// evalStack: how do `==`, `!=` and `in` compare two interface values (0a3fd2c), and does the float64
+	// branch of `!=` leave the result alone when the right operand is not an int64 (21415f8)?
+	sameValueGuard := false
+	for _, d := range sf.Decls {
+		fd, ok := d.(*ast.FuncDecl)
+		if !ok || fd.Recv != nil || fd.Name.Name != "sameValue" || len(fd.Body.List) != 2 {
+			continue
+		}
+		is, ok1 := fd.Body.List[0].(*ast.IfStmt)
+		rs, ok2 := fd.Body.List[1].(*ast.ReturnStmt)
+		if ok1 && ok2 && is.Init != nil && scrNodeText(fset, is.Init) == "lt := reflect.TypeOf(left)" &&
+			scrNodeText(fset, is.Cond) == "lt != nil && !lt.Comparable()" && len(is.Body.List) == 1 &&
+			scrNodeText(fset, is.Body.List[0]) == "return false" && is.Else == nil &&
+			scrNodeText(fset, rs) == "return left == right" {
+			sameValueGuard = true
+		}
+	}
+	type eqSite struct {
+		label     string
+		safe, raw int
+	}
+	var eqSites []eqSite
+	neqFloatGuarded := false
+	for _, d := range sf.Decls {
+		fd, ok := d.(*ast.FuncDecl)
+		if !ok || fd.Name.Name != "evalStack" || fd.Recv != nil {
+			continue
+		}
+		ast.Inspect(fd.Body, func(n ast.Node) bool {
+			cc, ok := n.(*ast.CaseClause)
+			if !ok || len(cc.List) != 1 {
+				return true
+			}
+			x, ok := scrSelName(cc.List[0], "code")
+			if !ok || (x != "eq" && x != "neq" && x != "in") {
+				return true
+			}
+			site := eqSite{label: x}
+			operand := func(e ast.Expr) bool {
+				id, ok := e.(*ast.Ident)
+				return ok && (id.Name == "left" || id.Name == "right" || id.Name == "ev")
+			}
+			for _, st := range cc.Body {
+				ast.Inspect(st, func(m ast.Node) bool {
+					switch t := m.(type) {
+					case *ast.CallExpr:
+						if id, ok := t.Fun.(*ast.Ident); ok && id.Name == "sameValue" {
+							site.safe++
+						}
+					case *ast.BinaryExpr:
+						if (t.Op == token.EQL || t.Op == token.NEQ) && operand(t.X) && operand(t.Y) {
+							site.raw++
+						}
+					case *ast.CaseClause:
+						// the `case float64:` of the type switch on the left operand of `!=`
+						if x == "neq" && len(t.List) == 1 && scrNodeText(fset, t.List[0]) == "float64" && len(t.Body) == 1 {
+							if is, ok := t.Body[0].(*ast.IfStmt); ok && is.Init != nil && is.Else == nil &&
+								scrNodeText(fset, is.Init) == "tr, ok := right.(int64)" && scrNodeText(fset, is.Cond) == "ok" {
+								neqFloatGuarded = true
+							}
+						}
+					}
+					return true
+				})
+			}
+			eqSites = append(eqSites, site)
+			return false
+		})
+	}
+	if len(eqSites) != 3 {
+		return nil, fmt.Errorf("script extractor: expected the clauses eq, neq and in in evalStack, found %d", len(eqSites))
+	}
 	// evalWithRoot: is a template that is exactly one path evaluated as an existence test?
 	//   if len(s.template) == 1 { _, bare = s.template[0].(Expr) }   and   if bare { match = sstack[0] != Nothing }
 	bareAssign, bareUse, sawEvalWithRoot := false, false, false
@@ -405,6 +477,16 @@ func extractScript(repo, out string) ([]string, error) {
 		b.WriteString(scrLeanStrList(c))
 	}
 	fmt.Fprintf(&b, "]\n\ndef evalHasDefault : Bool := %v\n\n", evalDefault)
+	fmt.Fprintf(&b, "/-- `sameValue` is `if lt := reflect.TypeOf(left); lt != nil && !lt.Comparable() { return false }; return left == right` -/\ndef sameValueGuard : Bool := %v\n\n", sameValueGuard)
+	b.WriteString("/-- the clauses of evalStack that compare two operands as interface values: (label, calls of sameValue, raw ==/!= between the operands left/right/ev) -/\ndef ifaceEqSites : List (String × Nat × Nat) := [")
+	for i, c := range eqSites {
+		if i > 0 {
+			b.WriteString(", ")
+		}
+		fmt.Fprintf(&b, "(%s, %d, %d)", scrLeanStr(c.label), c.safe, c.raw)
+	}
+	b.WriteString("]\n\n")
+	fmt.Fprintf(&b, "/-- the `case float64:` of `!=` is `if tr, ok := right.(int64); ok { … }` (the result stays true for any other right operand) -/\ndef neqFloatGuarded : Bool := %v\n\n", neqFloatGuarded)
 	fmt.Fprintf(&b, "/-- a function `cmpIntFloat` is declared in jp/script.go -/\ndef hasCmpIntFloat : Bool := %v\n\n", hasCmpIntFloat)
 	b.WriteString("/-- the comparison clauses of evalStack: (label, calls of cmpIntFloat, conversions float64(…)) -/\ndef cmpSites : List (String × Nat × Nat) := [")
 	for i, c := range cmpSites {
